@@ -29,7 +29,7 @@ TAGS = {
     11: 'names not preserved', 12: 'a variance changed', 13: 'a covariance inside a block changed',
     14: 'covariance_matrix is not the block-diagonal composition of the distributions',
     15: 'symmetry lost', 16: 'new covariance is not the fill value / 0', 17: 'unjoin reorders although not needed',
-    18: 'selection is not the marginal',
+    18: 'selection is not the marginal', 19: 'a variability level changed',
 }
 CORR = (1, 2, 3, 4, 5, 6, 7, 8, 9)
 # oracle tag -> (correspondence tags that must be absent for the model to explain it, guard tag that must be
@@ -43,6 +43,7 @@ ORACLE = {
     16: (CORR, None, None),
     17: ((1,), 203, 'C11-UNJOIN-ORDER'),
     18: (CORR, None, None),
+    19: (CORR, None, None),
 }
 
 
@@ -119,7 +120,7 @@ def gen_entry(rng, mode, i, j, ns, diag):
 
 def gen_dist(rng, ns, mode=None, level=None):
     mode = mode or rng.choice(['sym', 'sym', 'num', 'mixed', 'mixed'])
-    level = level or rng.choice(['IIV', 'IIV', 'IIV', 'IOV', 'RUV'])
+    level = level or rng.choice(['IIV', 'IIV', 'IIV', 'IOV', 'RUV', 'RUV'])
     meanmode = rng.choice(['0', '0', '0', 'sym'])
     if len(ns) == 1 and rng.random() < 0.85:
         return {'k': 'N', 'name': ns[0], 'level': level, 'mean': '0' if meanmode == '0' else f'm_{ns[0]}',
@@ -164,9 +165,9 @@ def subset(rng, names, allow_empty=False):
     return rng.sample(names, k)
 
 
-def gen_op(rng, cur_names, ndists):
+def gen_op(rng, cur_names, ndists, dist_names=()):
     kind = rng.choice(['unjoin', 'unjoin', 'join', 'join', 'join', 'getlist', 'getlist', 'getint', 'getname',
-                       'slice', 'add_dist', 'add_coll', 'subs', 'levels', 'dget', 'dget'])
+                       'slice', 'add_dist', 'add_coll', 'subs', 'levels', 'levels', 'dget', 'dget'])
     bad = rng.random() < 0.06
     if kind == 'unjoin':
         inds = subset(rng, cur_names, True)
@@ -215,14 +216,14 @@ def gen_op(rng, cur_names, ndists):
         elif fresh:
             ns = fresh[:rng.choice([1, 1, 2])]
         else:
-            return gen_op(rng, cur_names, ndists)
+            return gen_op(rng, cur_names, ndists, dist_names)
         d = gen_dist(rng, ns)
         if rng.random() < 0.1:
             d['level'] = 'XYZ'
-        return {'op': 'add_dist', 'dist': d, 'radd': rng.random() < 0.0}
+        return {'op': 'add_dist', 'dist': d, 'radd': rng.random() < 0.3}
     if kind == 'add_coll':
         if not fresh:
-            return gen_op(rng, cur_names, ndists)
+            return gen_op(rng, cur_names, ndists, dist_names)
         ds = []
         i = 0
         fr = fresh[:rng.choice([1, 2, 3])]
@@ -254,8 +255,9 @@ def gen_op(rng, cur_names, ndists):
     if kind == 'dget':
         k = rng.randrange(ndists + 1) if rng.random() < 0.05 else rng.randrange(max(ndists, 1))
         sub = rng.choice(['int', 'name', 'list', 'list'])
-        return {'op': 'dget', 'k': k, 'sub': sub, 'i': rng.randint(-4, 4), 'x': rng.choice(cur_names + ['zz']) if cur_names else 'zz',
-                'ind': subset(rng, cur_names) + (['zz'] if bad else []), 'dup': rng.random() < 0.1}
+        own = list(dist_names[k]) if k < len(dist_names) and rng.random() < 0.8 else cur_names
+        return {'op': 'dget', 'k': k, 'sub': sub, 'i': rng.randint(-3, 3), 'x': rng.choice(own + ['zz']) if own else 'zz',
+                'ind': subset(rng, own) + (['zz'] if bad else []), 'dup': rng.random() < 0.1}
     raise AssertionError(kind)
 
 
@@ -325,6 +327,8 @@ def run_op(rvs, op, im):
     if k == 'slice':
         return rvs[op['a']:op['b']:op['c']]
     if k == 'add_dist':
+        if op.get('radd'):
+            return build_dist(op['dist'], im) + rvs
         return rvs + build_dist(op['dist'], im)
     if k == 'add_coll':
         ds = [build_dist(d, im) for d in op['dists']]
@@ -385,7 +389,7 @@ def apply_op_term(op, names, im):
     if k == 'slice':
         return f"(OpGetSlice {oz(op['a'])} {oz(op['b'])} {oz(op['c'])})"
     if k == 'add_dist':
-        return f"(OpAddDist {dist_term(build_dist(op['dist'], im), names, im)})"
+        return f"({'OpRAddDist' if op.get('radd') else 'OpAddDist'} {dist_term(build_dist(op['dist'], im), names, im)})"
     if k == 'add_coll':
         return f"(OpAddColl {ct.lst([dist_term(build_dist(d, im), names, im) for d in op['dists']])})"
     if k == 'subs':
@@ -472,7 +476,7 @@ def gen_spec(rng, im=None):
     nsteps = rng.choice([1, 2, 3, 3, 4, 5, 6])
     names = CNames()
     for _ in range(nsteps):
-        op = gen_op(rng, list(rvs.names), len(rvs))
+        op = gen_op(rng, list(rvs.names), len(rvs), [list(d.names) for d in rvs])
         try:
             _, res = apply_op(rvs, op, names, im)
         except (sc.Unconvertible, ValueError, TypeError):
@@ -484,6 +488,279 @@ def gen_spec(rng, im=None):
         if isinstance(new, im.RandomVariables) and (op['op'] in ADOPT_ALWAYS or op.get('adopt', False)):
             rvs = new
     return spec
+
+
+def symblock(ns, level='IIV'):
+    n = len(ns)
+    if n == 1:
+        return {'k': 'N', 'name': ns[0], 'level': level, 'mean': '0', 'var': f'O_{ns[0]}_{ns[0]}'}
+    return {'k': 'J', 'names': list(ns), 'level': level, 'mean': ['0'] * n,
+            'var': [[f'O_{ns[min(i, j)]}_{ns[max(i, j)]}' for j in range(n)] for i in range(n)]}
+
+
+def exhaustive_specs(tier):
+    """All index sets over a 5-variable layout (the thorough tier adds a second layout and more modes)."""
+    from itertools import combinations
+    names = ['xa', 'xb', 'xc', 'xd', 'xe']
+    layouts = [[symblock(names[:3]), symblock(names[3:])]]
+    if tier != 'quick':
+        layouts.append([symblock(names[:2]), symblock(names[2:3]), symblock(names[3:])])
+    subsets = [list(c) for k in range(6) for c in combinations(names, k)]
+    specs = []
+    for lay in layouts:
+        for sub in subsets:
+            ops = [{'op': 'unjoin', 'inds': sub}, {'op': 'getlist', 'ind': sub, 'container': 'list', 'adopt': False},
+                   {'op': 'join', 'inds': sub, 'fill': 'F', 'tmpl': None}]
+            if tier != 'quick':
+                ops += [{'op': 'join', 'inds': sub, 'fill': '0', 'tmpl': None},
+                        {'op': 'join', 'inds': sub, 'fill': '0',
+                         'tmpl': {'template': 'IIV_{}_IIV_{}', 'params': PARAMNAMES[:len(sub)]}}]
+            for op in ops:
+                specs.append({'dists': lay, 'steps': [op], 'qseed': len(specs)})
+    return specs
+
+
+# ------------------------------------------------------------------ numeric side
+NTAGS = {
+    31: 'validate_parameters differs from model', 32: 'nearest_valid_parameters differs from model',
+    33: 'Model.create initial estimates differ from canonicalize model', 34: 'parameters_sdcorr differs from model',
+    35: '_scale_matrix differs from model', 36: '_descale_matrix / from_ucp differs from model',
+    41: 'a covariance block of the model initial estimates is not positive semidefinite',
+    42: 'valid initial estimates were altered', 43: 'sd/corr form does not convert back to the covariance block',
+    44: 'from_ucp(scale(M), 0.1) differs from the initial estimates',
+    45: 'is_positive_semidefinite disagrees with the exact rational test (outside the tolerance band)',
+    46: 'nearest_positive_semidefinite result is not positive semidefinite', 47: 'repaired matrix not symmetric',
+}
+NCORR = (31, 32, 33, 34, 35, 36)
+NORACLE = {41: (NCORR, None, None), 42: (NCORR, None, None), 43: (NCORR, None, None),
+           44: ((35, 36), 241, 'C11-UCP-NEGATIVE-COVARIANCE'), 45: (NCORR, None, None),
+           46: (NCORR, None, None), 47: (NCORR, None, None)}
+NIMPORTS = 'Base.PyData Base.Expr C11.Model C11.NumModel C11.NumCheck'
+
+
+def gen_block_values(rng, n):
+    """A symmetric n x n matrix of small rationals, of a chosen definiteness class."""
+    cls = rng.choice(['pd', 'pd', 'pd_nonneg', 'indefinite', 'indefinite', 'singular', 'diag'])
+    L = [[F(0)] * n for _ in range(n)]
+    for i in range(n):
+        for j in range(i + 1):
+            if i == j:
+                L[i][j] = rng.choice([F(1), F(1, 2), F(3, 10), F(2), F(3, 2)])
+            else:
+                pool = [F(0), F(1, 10), F(1, 2), F(3, 10), F(-1, 10), F(-1, 2), F(-3, 10)]
+                if cls == 'pd_nonneg':
+                    pool = [F(0), F(1, 10), F(1, 2), F(3, 10)]
+                if cls == 'diag':
+                    pool = [F(0)]
+                L[i][j] = rng.choice(pool)
+    A = [[sum(L[i][k] * L[j][k] for k in range(n)) for j in range(n)] for i in range(n)]
+    if cls == 'indefinite' and n >= 2:
+        i, j = rng.sample(range(n), 2)
+        v = rng.choice([F(3), F(-2), F(5, 2)]) * max(A[i][i], A[j][j])
+        A[i][j] = A[j][i] = v
+    if cls == 'singular' and n >= 2:
+        i, j = rng.sample(range(n), 2)
+        for k in range(n):
+            A[j][k] = A[i][k]
+        for k in range(n):
+            A[k][j] = A[k][i]
+        A[j][j] = A[i][i]
+    return cls, [[str(x) for x in row] for row in A]
+
+
+def gen_num_spec(rng):
+    nvar = rng.choice([1, 2, 3, 4, 5, 6])
+    blocks = []
+    i = 0
+    k = 0
+    while i < nvar:
+        n = min(rng.choice([1, 1, 2, 2, 3]), nvar - i)
+        cls, vals = gen_block_values(rng, n)
+        blocks.append({'names': [f'ETA{i + a + 1}' for a in range(n)], 'level': rng.choice(['IIV', 'IIV', 'IOV']),
+                       'values': vals, 'cls': cls, 'joint1': rng.random() < 0.2})
+        i += n
+    neps = rng.choice([1, 1, 2])
+    cls, vals = gen_block_values(rng, neps)
+    blocks.append({'names': [f'EPS{a + 1}' for a in range(neps)], 'level': 'RUV', 'values': vals, 'cls': cls,
+                   'joint1': False})
+    thetas = []
+    for t in range(rng.choice([0, 1, 2, 3])):
+        lower = rng.choice([None, 0, -1, 0, -5])
+        upper = rng.choice([None, 10, 100, None])
+        lo = -1000000 if lower is None else lower
+        up = 1000000 if upper is None else upper
+        init = rng.choice([F(1, 2), F(1), F(2), F(15, 10), F(7, 2)])
+        init = min(max(init, F(lo) + F(1, 4)), F(up) - F(1, 4))
+        thetas.append({'name': f'TH{t + 1}', 'init': str(init), 'lower': lower, 'upper': upper,
+                       'fix': rng.random() < 0.15})
+    return {'kind': 'num', 'blocks': blocks, 'thetas': thetas}
+
+
+def fq(x):
+    return ct.q(F(float(x)))
+
+
+def qmat(M):
+    return ct.lst([ct.lst([fq(x) for x in row]) for row in M])
+
+
+def observe_num(spec, mutate=None):
+    import numpy as np
+    from pharmpy.internals.math import is_positive_semidefinite, nearest_positive_semidefinite
+    from pharmpy.model import (JointNormalDistribution, Model, NormalDistribution, Parameter, Parameters,
+                               RandomVariables)
+    from pharmpy.modeling import calculate_parameters_from_ucp, calculate_ucp_scale
+    from pharmpy.modeling import estimation as est
+    if mutate:
+        est, is_positive_semidefinite, nearest_positive_semidefinite = mutate(est, is_positive_semidefinite,
+                                                                             nearest_positive_semidefinite)
+    names = ct.Names()
+    names.get('ZERO')
+    dists, params, terms = [], [], []
+    for t in spec['thetas']:
+        kw = {}
+        if t['lower'] is not None:
+            kw['lower'] = t['lower']
+        if t['upper'] is not None:
+            kw['upper'] = t['upper']
+        params.append(Parameter.create(t['name'], float(F(t['init'])), fix=t['fix'], **kw))
+    for b in spec['blocks']:
+        ns = b['names']
+        n = len(ns)
+        pre = 'S' if b['level'] == 'RUV' else 'O'
+        sym = [[f"{pre}_{ns[max(i, j)]}_{ns[min(i, j)]}" for j in range(n)] for i in range(n)]
+        lev = ct.pos(LEVELS[b['level']])
+        if n == 1 and not b['joint1']:
+            dists.append(NormalDistribution.create(ns[0], b['level'], 0, sympy.Symbol(sym[0][0])))
+            terms.append(f"(Normal {names.p(ns[0])} {lev} 1%positive {names.p(sym[0][0])})")
+        else:
+            dists.append(JointNormalDistribution.create(ns, b['level'], [0] * n,
+                                                        [[sympy.Symbol(x) for x in row] for row in sym]))
+            rows = ct.lst([ct.lst([names.p(x) for x in row]) for row in sym])
+            terms.append(f"(Joint {ct.lst([names.p(x) for x in ns])} {lev} {ct.lst(['1%positive'] * n)} {rows})")
+        for i in range(n):
+            for j in range(i + 1):
+                params.append(Parameter.create(sym[i][j], float(F(b['values'][i][j]))))
+    rvs = RandomVariables.create(dists)
+    ps = Parameters.create(params)
+    inits = dict(ps.inits)
+    info = {'classes': [b['cls'] for b in spec['blocks']], 'nvars': rvs.nrvs}
+
+    def pdict(d):
+        return ct.lst([ct.pair(names.p(k), fq(v)) for k, v in d.items()])
+
+    psd_tab, rep_tab = [], []
+    for d in rvs:
+        if isinstance(d, JointNormalDistribution):
+            A = d.variance.subs(inits).to_numpy()
+            ok = bool(is_positive_semidefinite(A))
+            B = nearest_positive_semidefinite(A.copy()) if not ok else A
+            psd_tab.append(ct.pair(qmat(A), ct.boolean(ok)))
+            rep_tab.append(ct.pair(qmat(A), qmat(B)))
+    valid = bool(rvs.validate_parameters(inits))
+    nearest = rvs.nearest_valid_parameters(inits)
+    model = Model.create(name='m', parameters=ps, random_variables=rvs)
+    minits = dict(model.parameters.inits)
+    info['valid'] = valid
+    # blocks under the model's initial estimates: PSD table for them as well (oracle 45 uses it)
+    sq = {}
+    diag_ok = True
+    for d in rvs:
+        if isinstance(d, JointNormalDistribution):
+            A = d.variance.subs(minits).to_numpy()
+            psd_tab.append(ct.pair(qmat(A), ct.boolean(bool(is_positive_semidefinite(A)))))
+            for i in range(len(A)):
+                if not A[i, i] > 0:
+                    diag_ok = False
+                else:
+                    sq[float(A[i, i])] = float(np.sqrt(A[i, i]))
+        else:
+            v = float(minits[d.variance.name])
+            if not v > 0:
+                diag_ok = False
+            else:
+                sq[v] = float(np.sqrt(v))
+    sdcorr = 'None'
+    if diag_ok:
+        with np.errstate(all='ignore'):
+            sd = rvs.parameters_sdcorr(minits)
+        if all(np.isfinite(float(v)) for v in sd.values()):
+            sdcorr = f"(Some {pdict(sd)})"
+    info['sdcorr'] = sdcorr != 'None'
+    ucp = 'None'
+    from_ucp = {}
+    free = [p.name for p in model.parameters if not p.fix]
+    try:
+        if mutate:
+            sc = est.calculate_ucp_scale(model)
+        else:
+            sc = calculate_ucp_scale(model)
+        ucps = {n: 0.1 for n in free}
+        res = (est.calculate_parameters_from_ucp if mutate else calculate_parameters_from_ucp)(model, sc, ucps)
+        from_ucp = {k: float(v) for k, v in dict(res).items()}
+        groups = []
+        for sub, S in ((model.random_variables.etas, sc.omega), (model.random_variables.epsilons, sc.sigma)):
+            Ms = sub.covariance_matrix
+            A = Ms.subs(minits).to_numpy()
+            Lc = np.linalg.cholesky(A)
+            U = Ms.subs(dict(ucps)).subs(model.parameters.fixed.inits).to_numpy()
+            D = est._descale_matrix(U, S)
+            msym = ct.lst([ct.lst([ct.opt(names.p(Ms[i, j].name)) if Ms[i, j] != 0 else 'None'
+                                   for j in range(Ms.cols)]) for i in range(Ms.rows)])
+            groups.append(ct.tup(msym, qmat(Lc), qmat(S), qmat(D)))
+        ucp = f"(Some {ct.lst(groups)})"
+    except np.linalg.LinAlgError:
+        pass
+    info['ucp'] = ucp != 'None'
+    term = ("(mkNCase " + ct.lst(terms) + "\n " + pdict(inits) + "\n " + ct.lst(psd_tab) + "\n " + ct.lst(rep_tab)
+            + "\n " + ct.boolean(valid) + " " + pdict(nearest) + "\n " + pdict(minits) + "\n " + sdcorr + "\n "
+            + ct.lst([ct.pair(fq(k), fq(v)) for k, v in sq.items()]) + " " + fq(np.exp(0.1)) + " " + fq(0.1)
+            + "\n " + ucp + "\n " + pdict(from_ucp) + " " + ct.lst([names.p(x) for x in free]) + ")")
+    return term, info
+
+
+def classify_num(ctx, spec, tags):
+    tags = set(tags)
+    corr = sorted(t for t in tags if t in NCORR)
+    status = 'ok'
+    for t in sorted(t for t in tags if t in NORACLE):
+        need_absent, guard_tag, fid = NORACLE[t]
+        explained = not any(c in tags for c in need_absent)
+        guard_false = guard_tag is not None and guard_tag in tags
+        if explained and guard_false and fid and ctx.open_finding(fid):
+            ctx.coverage.setdefault('known_hits', {}).setdefault(fid, 0)
+            ctx.coverage['known_hits'][fid] += 1
+            if status == 'ok':
+                status = 'known'
+        else:
+            ctx.violation(NTAGS[t], {'spec': spec, 'tags': sorted(tags), 'tag_meaning': NTAGS[t]})
+            status = 'violation'
+    if corr and status != 'violation':
+        ctx.broken.append('correspondence C11 numeric model vs implementation: ' + ', '.join(NTAGS[t] for t in corr)
+                          + ' on ' + json.dumps(spec)[:600])
+        ctx.coverage.setdefault('corr_disagreements', []).append({'spec': spec, 'tags': sorted(tags)})
+        status = 'broken'
+    return status
+
+
+def run_num_specs(ctx, specs, label, quiet=False, mutate=None, observed=()):
+    terms, infos = [], []
+    specs = list(specs)
+    for spec in specs:
+        term, info = observe_num(spec, mutate=mutate)
+        terms.append(term)
+        infos.append(info)
+    for spec, term, info in observed:
+        specs.append(spec)
+        terms.append(term)
+        infos.append(info)
+    verdicts = ctx.run_cases(label, NIMPORTS, 'ncase', terms, 'nverdict', shard=40)
+    if quiet:
+        return verdicts, infos, None
+    stats = {'ok': 0, 'known': 0, 'violation': 0, 'broken': 0}
+    for spec, tags in zip(specs, verdicts):
+        stats[classify_num(ctx, spec, tags)] += 1
+    return verdicts, infos, stats
 
 
 # ------------------------------------------------------------------ classification
@@ -515,13 +792,59 @@ def classify(ctx, spec, tags):
 IMPORTS = 'Base.PyData Base.Expr Base.Interp Base.Stmts C11.Model C11.Check'
 
 
-def run_specs(ctx, specs, label, quiet=False, im=None, mutate=None):
+def _alg_chunk(args):
+    seed, n = args
+    rng = random.Random(seed)
+    out = []
+    for _ in range(n):
+        spec = gen_spec(rng)
+        try:
+            term, info = observe(spec)
+        except (sc.Unconvertible, sympy.SympifyError):
+            out.append((spec, None, None))
+            continue
+        out.append((spec, term, info))
+    return out
+
+
+def _num_chunk(args):
+    seed, n = args
+    rng = random.Random(seed)
+    out = []
+    for _ in range(n):
+        spec = gen_num_spec(rng)
+        term, info = observe_num(spec)
+        out.append((spec, term, info))
+    return out
+
+
+def pgen(ctx, fn, n, per=25):
+    """Generate + observe n cases in forked worker processes; chunk seeds come from ctx.rng only."""
+    import multiprocessing as mp
+    from harness.lib.core import JOBS
+    chunks = [(ctx.rng.randrange(2 ** 62), min(per, n - k)) for k in range(0, n, per)]
+    if not chunks:
+        return []
+    impl()                                   # import pharmpy before forking
+    with mp.get_context('fork').Pool(min(JOBS, len(chunks))) as pool:
+        res = pool.map(fn, chunks)
+    return [x for chunk in res for x in chunk]
+
+
+def run_specs(ctx, specs, label, quiet=False, im=None, mutate=None, observed=()):
     terms, kept, infos = [], [], []
     skipped = 0
     for spec in specs:
         try:
             term, info = observe(spec, im=im, mutate=mutate)
         except (sc.Unconvertible, sympy.SympifyError) as e:
+            skipped += 1
+            continue
+        terms.append(term)
+        kept.append(spec)
+        infos.append(info)
+    for spec, term, info in observed:
+        if term is None:
             skipped += 1
             continue
         terms.append(term)
@@ -542,7 +865,15 @@ def run_specs(ctx, specs, label, quiet=False, im=None, mutate=None):
 def finding_probes(ctx):
     """Replay the stored witness of every open finding on the real code."""
     for f in ctx.findings:
-        if f.get('status') != 'open' or f.get('kind', 'algebra') != 'algebra':
+        if f.get('status') != 'open':
+            continue
+        if f.get('kind', 'algebra') == 'num':
+            verdicts, _, _ = run_num_specs(ctx, [f['witness']], 'finding-' + f['id'], quiet=True)
+            tags = set(verdicts[0]) if verdicts else set()
+            if f['expect_tag'] in tags and not any(c in tags for c in NCORR):
+                ctx.known(f['id'])
+            else:
+                ctx.notes.append(f"finding_not_reproduced {f['id']} (tags {sorted(tags)})")
             continue
         kept, verdicts, _, _ = run_specs(ctx, [f['witness']], 'finding-' + f['id'], quiet=True)
         tags = set(verdicts[0]) if verdicts else set()
@@ -565,18 +896,26 @@ def run(ctx):
     ctx.coverage['source_sha'] = source_sha('src/pharmpy/model/random_variables.py',
                                             'src/pharmpy/model/distributions/symbolic.py',
                                             'src/pharmpy/internals/math.py', 'src/pharmpy/modeling/estimation.py')
+    ctx.log('gates done')
     finding_probes(ctx)
+    ctx.log('finding probes done')
     reg = sorted((VERIF / 'regress' / 'C11').glob('*.json'))
     specs = [json.loads(p.read_text()) for p in reg]
     specs = [s for s in specs if s.get('kind', 'algebra') == 'algebra']
-    n = 600 if ctx.tier == 'quick' else 10000
-    specs += [gen_spec(ctx.rng) for _ in range(n)]
-    kept, verdicts, infos, stats = run_specs(ctx, specs, 'gen')
+    nreg = len(specs)
+    specs += exhaustive_specs(ctx.tier)
+    ctx.coverage['exhaustive_index_set_histories'] = len(specs) - nreg
+    n = 500 if ctx.tier == 'quick' else 5000
+    observed = pgen(ctx, _alg_chunk, n)
+    ctx.log(f'{nreg} regression + {len(specs) - nreg} exhaustive + {len(observed)} generated histories observed')
+    kept, verdicts, infos, stats = run_specs(ctx, specs, 'gen', observed=observed)
+    ctx.log('histories checked')
     ctx.coverage['evaluations'] = sum(i['nsteps'] + 1 for i in infos)
     distinct = {json.dumps(s, sort_keys=True) for s, i in zip(kept, infos) if i['nsteps'] >= 1 and i['nvars'] >= 2}
     ctx.coverage['distinct_nontrivial'] = len(distinct)
     ctx.coverage['histories'] = len(kept)
-    ctx.coverage['rule'] = ('random collections of 1-6 (+ added) normal / joint-normal variables (symbolic, numeric, mixed '
+    ctx.coverage['regression_cases'] = nreg
+    ctx.coverage['rule'] = ('regression corpus + every index set over a 5-variable 2-block layout for unjoin/select/join + random collections of 1-6 (+ added) normal / joint-normal variables (symbolic, numeric, mixed '
                             'entries; IIV/IOV/RUV) and 1-6 operations from VERIF_SEED; non-trivial = at least two '
                             'variables and one operation; distinct by spec text')
     ctx.coverage['case_status'] = stats
@@ -592,12 +931,49 @@ def run(ctx):
         'guard_inblock_zero_fill': sum(1 for v in verdicts if 202 in v),
         'guard_removed_not_prefix': sum(1 for v in verdicts if 203 in v),
         'states_with_duplicate_names': sum(1 for v in verdicts if 210 in v),
+        'mixed_level_joins': sum(1 for v in verdicts if 204 in v),
     }
     ctx.coverage['samples'] = [{'spec': s, 'tags': v} for s, v in list(zip(kept, verdicts))[:4]]
+    # ---- numeric side: sd/corr, PSD repair, UCP
+    nspecs = [json.loads(p.read_text()) for p in reg]
+    nspecs = [s for s in nspecs if s.get('kind') == 'num']
+    nn = 80 if ctx.tier == 'quick' else 800
+    nobserved = pgen(ctx, _num_chunk, nn, per=10)
+    nverdicts, ninfos, nstats = run_num_specs(ctx, nspecs, 'num', observed=nobserved)
+    nspecs = nspecs + [o[0] for o in nobserved]
+    ctx.log('numeric cases checked')
+    ctx.coverage['evaluations'] += len(nspecs)
+    ctx.coverage['distinct_nontrivial'] += len({json.dumps(s, sort_keys=True) for s in nspecs
+                                                if any(len(b['names']) >= 2 for b in s['blocks'])})
+    ctx.coverage['numeric_cases'] = len(nspecs)
+    ctx.coverage['numeric_case_status'] = nstats
+    clshist = {}
+    for i in ninfos:
+        for c in i['classes']:
+            clshist[c] = clshist.get(c, 0) + 1
+    ctx.coverage['input_distribution']['numeric'] = {
+        'block_classes': clshist,
+        'invalid_inits_repaired': sum(1 for i in ninfos if not i['valid']),
+        'with_sdcorr': sum(1 for i in ninfos if i['sdcorr']),
+        'with_ucp_roundtrip': sum(1 for i in ninfos if i['ucp']),
+        'negative_cholesky_entry': sum(1 for v in nverdicts if 241 in v),
+    }
+    ctx.coverage['samples'] += [{'spec': s, 'tags': v} for s, v in list(zip(nspecs, nverdicts))[:2]]
+    ctx.assumptions += [
+        'numpy/LAPACK eig, svd, cholesky are engines: PSD test results, repaired matrices and Cholesky factors are taken from the implementation as tables; PSD(nearest(A)) is validated by an exact rational elimination test with tolerance 1e-8*(1+max|a_ij|), not proved',
+        'float arithmetic of the implementation is compared with exact rational arithmetic of the model with relative tolerance 1e-9',
+        'theta part of the UCP scaling (log/exp) is tied only through the round-trip oracle; its algebra is proved over R',
+    ]
 
 
 def replay(ctx, rep):
     spec = rep['spec']
+    if spec.get('kind') == 'num':
+        verdicts, _, _ = run_num_specs(ctx, [spec], 'replay', quiet=True)
+        tags = verdicts[0]
+        print('spec', json.dumps(spec))
+        print('tags', tags, [NTAGS.get(t, t) for t in tags])
+        return 1 if any(t in NORACLE or t in NCORR for t in tags) else 0
     kept, verdicts, _, _ = run_specs(ctx, [spec], 'replay', quiet=True)
     tags = verdicts[0]
     print('spec', json.dumps(spec))
